@@ -39,6 +39,7 @@ type Contract struct {
 	Abstract bool // contract of an interface method: assumed at invoke sites, justified by the contracts of the implementations
 	Pure     bool // no heap effect at call sites
 	NoPanic  bool
+	NoExplicitPanic bool // only panic(...) statements are obligations (not nil dereferences, bounds, ...)
 	Inline   bool // use the body, not the contract, at call sites
 	Requires []Clause
 	Ensures  []Clause
@@ -455,7 +456,11 @@ func (db *SpecDB) LoadSpecFile(path, pkgPath string) error {
 			case "abstract":
 				cur.Abstract = true
 			case "nopanic":
-				cur.NoPanic = true
+				if strings.TrimSpace(rc.rest) == "explicit" {
+					cur.NoExplicitPanic = true
+				} else {
+					cur.NoPanic = true
+				}
 			case "inline":
 				cur.Inline = true
 			case "ghost":
